@@ -128,6 +128,8 @@ type Scenario struct {
 	Heap map[string]SV
 	// Params gives values for parameters by name-independent id: recv, p0, p1, ...
 	Params map[string]SV
+	// Recv says what a receive from the given channel delivers (nil/false: a symbolic value).
+	Recv func(ch SV) (SV, bool)
 	// ByType gives values for parameters by (a suffix of) their type; used where the order is not fixed by an interface.
 	ByType map[string]SV
 	// Call models a call: given the callee id and argument values, optionally return a result.
@@ -989,6 +991,14 @@ func (ev *symEval) evalValue(fr *symFrame, st *symState, v ssa.Value) SV {
 			return SV{K: "int", Desc: "-" + a.Desc}
 		case token.ARROW:
 			st.trace = append(st.trace, Event{Kind: "recv", What: a.Desc, In: fname(fr.fn)})
+			if ev.sc.Recv != nil {
+				if v, ok := ev.sc.Recv(a); ok {
+					if x.CommaOk {
+						return SV{K: "tuple", Desc: "<-" + a.Desc, Elems: []SV{v, symBool(true)}}
+					}
+					return v
+				}
+			}
 			if x.CommaOk {
 				return SV{K: "tuple", Desc: "<-" + a.Desc, Elems: []SV{defaultFor(x.Type().(*types.Tuple).At(0).Type(), "<-"+a.Desc), {K: "bool", Desc: "ok(<-" + a.Desc + ")"}}}
 			}
@@ -1248,7 +1258,21 @@ func (ev *symEval) evalValue(fr *symFrame, st *symState, v ssa.Value) SV {
 		st.trace = append(st.trace, Event{Kind: "select", What: strings.Join(ds, " | "), In: fname(fr.fn), Note: n})
 		tup := x.Type().(*types.Tuple)
 		el := []SV{{K: "int", Desc: n + ".idx"}, {K: "bool", Desc: n + ".ok"}}
-		for i := 2; i < tup.Len(); i++ {
+		slot := 2
+		for _, s := range x.States {
+			if s.Dir != types.RecvOnly || slot >= tup.Len() {
+				continue
+			}
+			v := defaultFor(tup.At(slot).Type(), fmt.Sprintf("%s.%d", n, slot))
+			if ev.sc.Recv != nil {
+				if rv, ok := ev.sc.Recv(ev.val(fr, s.Chan)); ok {
+					v = rv
+				}
+			}
+			el = append(el, v)
+			slot++
+		}
+		for i := slot; i < tup.Len(); i++ {
 			el = append(el, defaultFor(tup.At(i).Type(), fmt.Sprintf("%s.%d", n, i)))
 		}
 		return SV{K: "tuple", Desc: n, Elems: el}
